@@ -250,16 +250,39 @@ Section Reader.
       do st' <- get_eol st;
       Ok (set_msg (set_tok r1 st') m' (t_orps r1)).
 
-  (* int(token.value, 0) restricted to what the correspondence feeds: canonical decimal, possibly
-     negative (other spellings - 0x.., 1_0, +5 - are left to the oracle) *)
+  (* int(token.value, 0) for ASCII text: sign, 0x / 0o / 0b prefixes (an underscore may follow the
+     prefix), digits with single underscores between them; in decimal a leading zero is allowed only
+     when the value is zero; more than 4300 decimal digits are CPython's ValueError (like every
+     ValueError here: "not a number", the token is then tried as a class) *)
   Definition int0 (v : list Z) : option Z :=
-    let canon (d : list Z) : bool :=
-      match d with c :: _ => (49 <=? c) && (c <=? 57) && forallb T.is_decimal d | [] => false end in
-    match v with
-    | [48] => Some 0
-    | 45 :: d => if canon d then Some (- dec_value d) else None
-    | _ => if canon v then Some (dec_value v) else None
-    end.
+    let '(neg, s) := match v with
+                     | c :: r => if c =? 43 then (false, r) else if c =? 45 then (true, r) else (false, v)
+                     | [] => (false, v)
+                     end in
+    let pref (base : Z) (r : list Z) : option Z :=
+      let r' := match r with c :: r2 => if c =? 95 then r2 else r | [] => r end in
+      match r' with
+      | [] => None
+      | c :: _ => if c =? 95 then None else T.int_digits base r' 0 false
+      end in
+    let mag :=
+      match s with
+      | [] => None
+      | c :: rest =>
+          if c =? 95 then None
+          else if c =? 48 then
+            match rest with
+            | p :: r =>
+                if (p =? 120) || (p =? 88) then pref 16 r
+                else if (p =? 111) || (p =? 79) then pref 8 r
+                else if (p =? 98) || (p =? 66) then pref 2 r
+                else match T.int_digits 10 s 0 false with Some 0 => Some 0 | _ => None end
+            | [] => Some 0
+            end
+          else if Nat.ltb 4300 (length (filter T.is_decimal s)) then None
+          else T.int_digits 10 s 0 false
+      end in
+    match mag with Some m => Some (if neg then - m else m) | None => None end.
 
   (* _rr_line *)
   Definition rr_line (r : rdr) (m : tmsg) (section : Z) : res rdr :=
